@@ -192,16 +192,48 @@ Proof.
 Qed.
 
 (* every builder state reachable by add_raw / copy_missing_tables satisfies the map invariant *)
+Lemma apply_op_none ops : fold_left apply_op ops None = None.
+Proof. induction ops as [|o ops IH]; [reflexivity|]. cbn. exact IH. Qed.
+
+Lemma add_table_wf m t dumped : wf m -> wf (add_table m t dumped).
+Proof. intros H. destruct dumped; cbn [add_table]; [apply add_raw_wf|]; exact H. Qed.
+
 Lemma apply_ops_wf ops : forall m0 m, wf m0 -> fold_left apply_op ops (Some m0) = Some m -> wf m.
 Proof.
   induction ops as [|[[k t] d] ops IH]; intros m0 m H0 H.
   - cbn in H. inversion H. subst. exact H0.
   - cbn [fold_left] in H. unfold apply_op at 2 in H. cbn [obind] in H.
-    destruct (k =? 0).
-    + eapply IH; [|exact H]. apply add_raw_wf. exact H0.
-    + destruct (k =? 1).
-      * destruct (font_ref_new d) as [f|]; cbn [obind] in H.
-        -- eapply IH; [|exact H]. apply copy_missing_wf. exact H0.
-        -- exfalso. clear -H. induction ops as [|o ops IH]; cbn in H; [discriminate|]. apply IH. exact H.
-      * exfalso. clear -H. induction ops as [|o ops IH]; cbn in H; [discriminate|]. apply IH. exact H.
+    destruct (k =? 0); [eapply IH; [|exact H]; apply add_raw_wf; exact H0|].
+    destruct (k =? 1).
+    { destruct (font_ref_new d) as [f|]; cbn [obind] in H.
+      - eapply IH; [|exact H]. apply copy_missing_wf. exact H0.
+      - rewrite apply_op_none in H. discriminate. }
+    destruct (k =? 3); [eapply IH; [|exact H]; apply add_table_wf; exact H0|].
+    destruct (k =? 4); [eapply IH; [|exact H]; apply add_table_wf; exact H0|].
+    rewrite apply_op_none in H. discriminate.
+Qed.
+
+(* ---------- add_table ---------- *)
+(* a failed add_table (dump_table returned Err) leaves the builder state unchanged *)
+Lemma add_table_err_noop m t : add_table m t None = m.
+Proof. reflexivity. Qed.
+Lemma add_table_err_observations m t : forall k,
+  lookup k (add_table m t None) = lookup k m /\ contains (add_table m t None) k = contains m k /\
+  build (add_table m t None) = build m.
+Proof. intros k. repeat split. Qed.
+(* a successful one is add_raw of the compiled bytes *)
+Lemma add_table_ok_is_add_raw m t bytes : add_table m t (Some bytes) = add_raw t bytes m.
+Proof. reflexivity. Qed.
+(* so a failed add_table for a fresh tag does not mask that tag in a later copy_missing_tables *)
+Lemma failed_add_table_does_not_mask_copy m src t d :
+  lookup t m = None -> In t (map r_tag (fr_records src)) -> table_data src t = Some d ->
+  lookup t (copy_missing_tables (add_table m t None) src) = Some d.
+Proof. intros H1 H2 H3. rewrite add_table_err_noop. apply copy_missing_copies; assumption. Qed.
+(* in an op sequence a failed add_table can be deleted without changing the final state *)
+Lemma apply_ops_drop_failed_add_table (ops1 ops2 : list op) t d m0 :
+  fold_left apply_op (ops1 ++ (4, t, d) :: ops2) (Some m0) = fold_left apply_op (ops1 ++ ops2) (Some m0).
+Proof.
+  rewrite !fold_left_app. cbn [fold_left].
+  destruct (fold_left apply_op ops1 (Some m0)) as [m|]; [reflexivity|].
+  cbn [apply_op obind]. reflexivity.
 Qed.
